@@ -452,6 +452,7 @@ DInner.1.0 g
 int64 h
 @sealed
 ''',
+    'cov/UFix.1.0.dsdl': '@union\nDInner.1.0[2] a\nuint8 b\nInner.1.0[3] c\nDInner.1.0[<=2] d\n@sealed\n',
     'cov/DU.1.0.dsdl': '@union\nuint8 a\nuint8[<=4] b\n@extent 16 * 8\n',
     'cov/UHolder.1.0.dsdl': 'U.1.0 u\nU.1.0[<=2] us\nDU.1.0 du\nuint4 t\nU.1.0[2] fu\n@sealed\n',
     'cov/Svc.1.0.dsdl': 'uint8 a\nInner.1.0 i\n@sealed\n---\nuint16[<=4] r\nU.1.0 u\n@extent 64 * 8\n',
